@@ -478,3 +478,8 @@ def oracle(lines, impl):
                 "pooled over all bootstrap lines with %s length, cell %s: observed %d of %d draws, expected %.1f "
                 "(tail bound %.3g < %g); most deviant single line attached" % ("odd" if par else "even", cname, X, T, mu, b, POOL_ALPHA))
     return fails
+
+# --- source tie, in-place mutation / nested loops / decision trees (tools/rs2lean.py mut=True: regenerated from /repo/src into
+# Generated/SrcC19Mut.lean and proved equal to the hand model in Props/SrcTieC19Mut.lean)
+from . import srctie
+srctie.wire_mut(globals(), 'C19')
